@@ -24,8 +24,8 @@ const PAYLOAD_BUDGET: usize = 1 << 20;
 /// Payload
 ///
 /// The memory a value holds outside of its own vcell, in units of one vcell.
-/// A vector, string, saved stack, procedure, environment, symbol or bignum occupies a
-/// single vcell however large it is.
+/// A vector, string, saved stack, procedure, environment, symbol, bignum or macro
+/// occupies a single vcell however large it is.
 fn payload(vcell: &VCell) -> usize {
     match vcell {
         VCell::Vector(vector) => vector.len(),
@@ -42,6 +42,8 @@ fn payload(vcell: &VCell) -> usize {
         VCell::Number(Number::BigInt(num)) => {
             (num.bits() / 8).to_usize().unwrap_or(usize::MAX) / std::mem::size_of::<VCell>()
         }
+        // the patterns and templates of a macro are its own copies
+        VCell::Macro(transform) => transform.weight(),
         _ => 0,
     }
 }
